@@ -7,6 +7,7 @@ import (
 	"encoding/json"
 	"fmt"
 	"strings"
+	"syscall"
 	"testing"
 	"time"
 
@@ -30,10 +31,20 @@ type Case struct {
 }
 
 const (
-	timeLimit  = 10 * time.Second // per call: "returns promptly - within seconds" (ordinary calls take milliseconds)
-	totalLimit = 60 * time.Second // per case (dozens of calls): after this the case counts as hung
+	// per call: "returns promptly - within seconds" (ordinary calls take milliseconds). Measured in CPU time of the
+	// process (one case runs at a time), so that a busy machine cannot turn a 2-second render into a violation.
+	timeLimit  = 12 * time.Second
+	totalLimit = 300 * time.Second // wall clock per case: after this the case counts as hung
 	sizeLimit  = 64 << 20
 )
+
+func cpuTime() time.Duration {
+	var ru syscall.Rusage
+	if err := syscall.Getrusage(syscall.RUSAGE_SELF, &ru); err != nil {
+		return 0
+	}
+	return time.Duration(ru.Utime.Nano() + ru.Stime.Nano())
+}
 
 // deepNestingCost is the signature of the open finding "deep-nesting-cost":
 // a markup body that nests 25 or more *block* elements (pre, blockquote,
@@ -44,12 +55,13 @@ const (
 func deepNestingCost(c Case) bool { return c.Blocks >= 25 }
 
 func exercise(c Case, obj map[string]any) (classes []string, err error) {
-	last := time.Now()
+	last := cpuTime()
 	lap := func(what string) error {
-		d := time.Since(last)
-		last = time.Now()
+		now := cpuTime()
+		d := now - last
+		last = now
 		if d > timeLimit {
-			return fmt.Errorf("%s took %v for a %d-byte document", what, d.Round(time.Millisecond), len(c.Doc))
+			return fmt.Errorf("%s took %v of CPU time for a %d-byte document", what, d.Round(time.Millisecond), len(c.Doc))
 		}
 		return nil
 	}
